@@ -202,4 +202,6 @@ func c01(c *Ctx) {
 	lp := "litefs.(*DB).LTXPath(litefs.(*Store).CreateDBIfNotExists(p0, p2.Name)#0, ltx.DecodeHeader(p3)#0.MinTXID, ltx.DecodeHeader(p3)#0.MaxTXID)"
 	c.ExpectAll("replica-apply/apply-args", []string{strings.Join(c.CallArgs(pl, applyCall, 1), ";") + " | " + strings.Join(c.CallArgs(pl, applyCall, 2), ";")}, pat(lp+" | true"), 1, "the file applied is the file published, fatally", "")
 	c.After("replica-apply/applied", pl, p.PlainCalls("litefs.OS.Rename"), applyCall, nil, 1, "after publication every success exit has applied the file", "")
+	c.truncFamily("trunc")
+
 }
